@@ -25,7 +25,18 @@ def jobs(tier):
             j.kind = 'bounded'
             j.bound = 'at most 3 relocations (the max-offset loop is unwound), offsets <= 2^40'
         J.append(j)
+    lt = Job('gen.looptree_pairing', 'harness/c17_looptree.c', 'h_looptree_pairing', defines={'NDEBUG': None}, unwind=3, object_bits=10, solver='cadical',
+             timeout=300, no_standard_checks=True,
+             ops=[('slice_cond', 'generate_func_code',
+                   r'if\s*\((?=[^;{}()]*\)\s*\{\s*build_loop_tree\s*\(gen_ctx\)\s*;\s*\{\s*if\s*\([^{}]*\{\s*print_loop_tree\s*\(gen_ctx,\s*1\)\s*;\s*\}\s*;\s*\}\s*;\s*\}\s*if\s*\()',
+                   'static int vp_cond_build (gen_ctx_t gen_ctx)'),
+                  ('slice_cond', 'generate_func_code',
+                   r'if\s*\((?=[^;{}()]*\)\s*destroy_loop_tree\s*\(gen_ctx,\s*gen_ctx->curr_cfg->root_loop_node\)\s*;\s*destroy_func_cfg)',
+                   'static int vp_cond_destroy (gen_ctx_t gen_ctx)')],
+             scope=['vp_cond_build', 'vp_cond_destroy'])
+    lt.count_funcs = {'vp_cond_build', 'vp_cond_destroy'}
+    J.append(lt)
     return J
 
 
-META = {'functions': ['VARR expand/tailor/push/push_arr/create/destroy', '_MIR_set_code', '_MIR_update_code_arr', '_MIR_change_code', 'add_code'], 'undecided_part': '', 'trusted_base': ['models/alloc.h', 'mem_protect / memcpy window model in harness/c17_code.c']}
+META = {'functions': ['VARR expand/tailor/push/push_arr/create/destroy', '_MIR_set_code', '_MIR_update_code_arr', '_MIR_change_code', 'add_code', 'generate_func_code (build/destroy conditions of the loop tree, sliced)'], 'undecided_part': '', 'trusted_base': ['models/alloc.h', 'mem_protect / memcpy window model in harness/c17_code.c']}
